@@ -359,6 +359,52 @@ def locate(src, path, with_attrs=False):
     return toks[s].start, toks[e].end
 
 
+def list_impl_fns(repo, file, path):
+    """[(fn_name, receiver, returns_self)] for every fn directly inside the impl block(s) `path`"""
+    fpath = os.path.join(repo, file)
+    try:
+        src = open(fpath, encoding="utf-8").read()
+    except OSError as e:
+        raise VxError("lost anchor: cannot read %s: %s" % (file, e))
+    toks = lex(src)
+    blocks = _find_in(toks, 0, len(toks), path[0])
+    if not blocks:
+        raise VxError("lost anchor: %r not found" % path[0])
+    out = []
+    for (s0, e0, kw) in blocks:
+        b = next_body_brace(toks, kw)
+        i = b + 1
+        depth = 0
+        while i < e0:
+            t = toks[i]
+            if t.kind == "punct" and t.text in _OPEN:
+                depth += 1
+            elif t.kind == "punct" and t.text in _CLOSE:
+                depth -= 1
+            elif depth == 0 and t.kind == "ident" and t.text == "fn" and toks[i + 1].kind == "ident":
+                name = toks[i + 1].text
+                # receiver: tokens up to the first `,` or `)` of the parameter list
+                j = i + 2
+                while toks[j].text != "(":
+                    j += 1
+                close = match_close(toks, j)
+                first = []
+                k = j + 1
+                while k < close and toks[k].text != ",":
+                    first.append(toks[k].text)
+                    k += 1
+                recv = " ".join(first)
+                recv = {"& mut self": "&mut self", "& self": "&self"}.get(recv, recv)
+                if "self" not in first:
+                    recv = ""
+                body = next_body_brace(toks, close)
+                sig = [x.text for x in toks[close:body]] if body else []
+                returns_self = (recv == "" and "->" in sig and ("Self" in sig or path[0].split()[-1] in sig))
+                out.append((name, recv, returns_self))
+            i += 1
+    return out
+
+
 # --------------------------------------------------------------------------------------------
 # rewrites
 # --------------------------------------------------------------------------------------------
@@ -431,7 +477,7 @@ def apply_rewrites(text, rewrites, log):
         else:
             n = text.count(pat)
             new = text.replace(pat, rep)
-        if n != want:
+        if n != want and want != -1:
             raise VxError("lost anchor: rewrite %s %r matched %d times, expected %d"
                           % (rw.get("id", "?"), pat, n, want))
         log.append({"id": rw.get("id", "?"), "pattern": pat, "replace": rep, "count": n,
@@ -725,7 +771,38 @@ def build_unit(repo, unit, verif_root, twin=False):
     template = re.sub(r"^[ \t]*//@INCLUDE[ \t]+(\S+)[ \t]*$", _inc, template, flags=re.M)
     report = []
     pieces = {}
-    for ex in unit.get("extract", []):
+    extracts = list(unit.get("extract", []))
+    unit["_default_contract_fns"] = []
+    for ia in unit.get("impl_all", []):
+        # data-structure invariant: EVERY method of the impl block is put under contract.  Methods that
+        # have an [[extract]] entry keep it; any other method (e.g. one added later) gets the default
+        # contract for its receiver kind, so that a new operation cannot silently break the invariant.
+        known = {e["path"][-1].split()[-1] for e in extracts
+                 if e.get("file") == ia["file"] and e["path"][:-1] == ia["path"]}
+        names = list_impl_fns(repo, ia["file"], ia["path"])
+        extra = []
+        for fname, recv, returns_self in names:
+            if fname in known:
+                continue
+            ann = []
+            if returns_self:
+                ann.append({"kind": "ret", "name": "r"})
+                c = ia.get("contract_ctor", "")
+            elif recv == "&mut self":
+                c = ia.get("contract_mut", "")
+            elif recv in ("&self", "self", "mut self"):
+                c = ia.get("contract_ref", "")
+            else:
+                c = ia.get("contract_static", "")
+            if c.strip():
+                ann.append({"kind": "contract", "text": c})
+            extra.append({"name": ia["name"] + "__" + fname, "file": ia["file"], "path": ia["path"] + ["fn " + fname],
+                          "rewrite": ia.get("rewrite", []), "annot": ann, "_default": True})
+            unit["_default_contract_fns"].append(fname)
+        extracts += extra
+        pieces[ia["name"]] = ({"file": ia["file"]}, None, None, None)
+        ia["_members"] = [e["name"] for e in extra]
+    for ex in extracts:
         ex = dict(ex)
         text, lmap, raw = extract_one(repo, ex, report)
         if twin and ex.get("twin", True) and ex.get("kind", "fn") == "fn":
@@ -758,6 +835,17 @@ def build_unit(repo, unit, verif_root, twin=False):
                 raise VxError("template names unknown extract %r" % name)
             used.add(name)
             ex, text, lmap, _raw = pieces[name]
+            if text is None:
+                # impl_all marker: all default-contract members of that impl block
+                for ia in unit.get("impl_all", []):
+                    if ia["name"] == name:
+                        for mname in ia["_members"]:
+                            used.add(mname)
+                            mex, mtext, mlmap, _ = pieces[mname]
+                            for k, l in enumerate(mtext.split("\n")):
+                                out_lines.append(l)
+                                genmap.append((mname, mex["file"], mlmap[k]) if k < len(mlmap) else None)
+                continue
             for k, l in enumerate(text.split("\n")):
                 out_lines.append(l)
                 genmap.append((name, ex["file"], lmap[k]) if k < len(lmap) else None)
